@@ -317,6 +317,25 @@ pub fn all() -> Vec<Scenario> {
         symptom_oracles: vec![],
     });
 
+    // F22: event queued on the client when the session ends must not appear in the next session.
+    v.push(Scenario {
+        id: "F22",
+        props: vec!["C05", "C09"],
+        trace: Trace {
+            profile: prof(),
+            steps: cat(vec![
+                start(),
+                vec![sf(true), spawn(0, &[Kind::A]), Step::Emit { ev: SEv::Unord, mode: Mode::Broadcast, target: None }, sf(true)],
+                vec![del(0, Chan::SEv(SEv::Unord)), cf(0)], // update message held: the event is queued
+                vec![Step::Disconnect { client: 0, side: 0 }, cf(0), sf(false), Step::Connect { client: 0 }],
+                vec![spawn(1, &[Kind::A]), Step::Emit { ev: SEv::Unord, mode: Mode::Broadcast, target: None }, sf(true)],
+                vec![del(0, Chan::SEv(SEv::Unord)), cf(0)],
+                vec![Step::Heal],
+            ]),
+        },
+        symptom_oracles: vec![],
+    });
+
     // F4 (known): periodic component written off-period, entity's mutation tick advances.
     let mut p4 = prof();
     p4.app.period = 2;
